@@ -125,6 +125,22 @@ def layout(rnd, widgets, urwid):
     return k, urwid.Columns([urwid.Pile([w, txt()]) for w in ws[:2]])
 
 
+_SUB = []
+
+
+def _subclasses(base):
+    if not _SUB:
+
+        class Thumbnail(base):
+            pass
+
+        class Preview(Thumbnail):
+            pass
+
+        _SUB.extend([Thumbnail, Preview])
+    return _SUB
+
+
 def place_keys(vt):
     return sorted(set(vt.placement_keys()))
 
@@ -155,7 +171,9 @@ def run_history(seed, env, res):
     if graphics_possible and not cleared:
         fail("no-clear-on-start", "no delete-all after start()")
     styles = [KittyImage, KittyImage, BlockImage] + ([ITerm2Image] if personality == "konsole" else [])
-    widgets = [UrwidImage(rnd.choice(styles)(mkimg(rnd)), rnd.choice(["", "<.^", ">._"]), upscale=rnd.random() < 0.5) for _ in range(rnd.randint(1, 4))]
+    # applications subclass the widget; all image widgets share one z-index space
+    wcls = [UrwidImage, UrwidImage, _subclasses(UrwidImage)[0], _subclasses(UrwidImage)[1]]
+    widgets = [rnd.choice(wcls)(rnd.choice(styles)(mkimg(rnd)), rnd.choice(["", "<.^", ">._"]), upscale=rnd.random() < 0.5) for _ in range(rnd.randint(1, 4))]
     top = None
     kind = None
     try:
@@ -168,7 +186,7 @@ def run_history(seed, env, res):
                 gc.collect()
                 kind, top = layout(rnd, widgets, urwid)
             elif act == "add":
-                widgets.append(UrwidImage(rnd.choice(styles)(mkimg(rnd)), "", upscale=rnd.random() < 0.5))
+                widgets.append(rnd.choice(wcls)(rnd.choice(styles)(mkimg(rnd)), "", upscale=rnd.random() < 0.5))
                 kind, top = layout(rnd, widgets, urwid)
             elif act == "shift" and kind == "shift":
                 cols = top.contents[1][0] if isinstance(top, urwid.Pile) else top
